@@ -13,7 +13,7 @@ use crate::spec::*;
 pub fn run(ctx: &Ctx) -> ! {
     let mut ev = Evidence::default();
     let mut rep = Reporter::new(ctx);
-    let n_gen = if ctx.quick() { 12_000 } else { 300_000 };
+    let n_gen = if ctx.quick() { 40_000 } else { 400_000 };
     let mut cases = vec![];
     for c in corpus::corpus_b().into_iter().chain(corpus::corpus_c()) {
         if c.comparable() && !c.diagnostics && !c.program.read_only.is_empty() {
